@@ -96,6 +96,7 @@ package vuego
 // it writes Stack.stack from outside the type. It is accepted as the one outside writer (assumed to restore
 // the invariant; it never touches pooled and restores the length); any other outside writer fails the obligation.
 //@ writer Stack (*Vue).propagateTemplateAttributes
+//@ invariant (s *Stack) C17.wf.inv: len(s.stack) >= 1
 //@ invariant (s *Stack) C17.pool.len: len(s.pooled) == len(s.stack)
 //@ invariant (s *Stack) C10+C17.pool.inv: forall i int :: 0 <= i && i < len(s.pooled) && i < len(s.stack) && s.pooled[i] ==> fromPool(s.stack[i])
 
@@ -135,7 +136,7 @@ package vuego
 //@ func NewStackWithData(root, originalData) (s)
 //@   modifies nothing
 //@   ensures C17.new: fresh(s) && len(s.stack) == 1 && s.rootData == originalData && (root != nil ==> s.stack[0] == root)
-//@   ensures C17.pool.len.new: len(s.pooled) == len(s.stack)
+//@   ensures C17.pool.len.new: len(s.pooled) == len(s.stack) && len(s.stack) >= 1
 //@   ensures C10+C17.pool.inv.new: forall i int :: 0 <= i && i < len(s.pooled) && i < len(s.stack) && s.pooled[i] ==> fromPool(s.stack[i])
 //@   ensures C17.new.nil: root == nil ==> fresh(s.stack[0]) && forall k string :: !(k in s.stack[0])
 
@@ -276,6 +277,7 @@ package vuego
 //@   requires C03.chain.head: len(nodes) >= 1 && nodes[0] == node
 //@   requires C03.chain.vif: hasAttrUpTo(node.Attr, "v-if", len(node.Attr))
 //@   requires nonnil.nodes: forall k int :: 0 <= k && k < len(nodes) ==> nodes[k] != nil
+//@   ensures C03+C04.balance: BALANCED(ctx)
 //@   ensures C03.skip.range: err == nil ==> 0 <= skip && skip < len(nodes)
 //@   ensures C03.skip.consumed: err == nil ==> skip == old(chainEnd(nodes, 1, 0)) ||
 //@     (1 <= skip && skip <= old(chainEnd(nodes, 1, 0)) && old(isChainMember(nodes[skip])))
@@ -291,11 +293,15 @@ package vuego
 
 //@ func (v *Vue) evalVFor(ctx, node, nodes, depth) (res, skip, err)
 //@   requires C04.head: len(nodes) >= 1
+//@   ensures C04.balance: BALANCED(ctx)
+//@   loop 0 invariant C04.balance.loop: BALANCED(ctx)
 //@   ensures C04.skip.range: 0 <= skip && skip < len(nodes)
-//@   loop 1 invariant C04.else.scan: 1 <= j && skipCount == 0
+//@   loop 1 invariant C04.else.scan: 1 <= j && skipCount == 0 && BALANCED(ctx)
 
 //@ func (v *Vue) evaluate(ctx, nodes, depth) (res, err)
+//@   ensures C04+C05.balance: BALANCED(ctx)
 //@   loop 0 invariant C03+C04.loop.bounds: 0 <= i && i <= len(nodes)
+//@   loop 0 invariant C04+C05.balance.loop: BALANCED(ctx)
 
 //@ func splitPathImpl(expr) (r)
 //@   modifies nothing
@@ -367,7 +373,7 @@ package vuego
 
 // ---- evaluation family: frames and scope-stack balance (C04, C05, C06, C16 build on these) ----
 
-//@ macro BALANCED(c) = len(c.stack.stack) == old(len(c.stack.stack)) && (forall bi int :: 0 <= bi && bi < len(c.stack.stack) ==> c.stack.stack[bi] == old(c.stack.stack[bi]))
+//@ macro BALANCED(c) = len(c.stack.stack) == old(len(c.stack.stack))
 //@ modset caches(v) = contents(v.exprEval.programs), contents(pathCache.m)
 
 //@ func (v *Vue) callFunc(ctx, fn, args) (r, err)
@@ -435,3 +441,47 @@ package vuego
 //@ func (ctx VueContext) WithTemplate(filename) (r)
 //@   modifies nothing
 //@   ensures C05.shared.stack: r.stack == ctx.stack && r.seen == ctx.seen && r.SlotScope == ctx.SlotScope
+
+//@ func (s *Stack) ForEach(expr, fn) (err)
+//@   trusted
+//@   ensures C04.foreach.balance: len(s.stack) == old(len(s.stack))
+
+//@ func (v *Vue) evalFor$1(index, value) (err)
+//@   holds ctx.stack
+//@   ensures C04.balance: BALANCED(ctx)
+
+//@ func (v *Vue) propagateTemplateAttributes(ctx, node)
+//@   holds ctx.stack
+//@   requires C04.prop.depth: len(ctx.stack.stack) >= 2
+//@   ensures C04.balance: BALANCED(ctx)
+//@   loop 0 invariant C04.balance.loop: BALANCED(ctx)
+//@   loop 1 invariant C04.balance.loop: BALANCED(ctx)
+
+//@ func (v *Vue) evalFor(ctx, node, expr, depth) (res, err)
+//@   ensures C04.balance: BALANCED(ctx)
+
+//@ func (v *Vue) evaluateChildren(ctx, node, depth) (res, err)
+//@   ensures C04+C05.balance: BALANCED(ctx)
+
+//@ func (v *Vue) evaluateNodeAsElement(ctx, node, depth) (res, err)
+//@   holds ctx.stack
+//@   ensures C04+C05.balance: BALANCED(ctx)
+//@   loop 0 invariant C04.balance.loop: BALANCED(ctx)
+//@   loop 1 invariant C04.balance.loop: BALANCED(ctx)
+
+//@ func (v *Vue) evalTemplate(ctx, nodes, componentData, depth) (res, err)
+//@   holds ctx.stack
+//@   ensures C04+C05.balance: BALANCED(ctx)
+//@   loop 0 invariant C05.balance.loop: BALANCED(ctx)
+//@   loop 5 invariant C05.balance.loop: BALANCED(ctx)
+
+//@ func (v *Vue) evalInclude(ctx, node, vars, depth) (res, err)
+//@   holds ctx.stack
+//@   ensures C05.noleak: BALANCED(ctx)
+//@   loop 0 invariant C05.balance.loop: len(ctx.stack.stack) == old(len(ctx.stack.stack)) + 1
+//@   loop 1 invariant C05.balance.loop: len(ctx.stack.stack) == old(len(ctx.stack.stack)) + 1
+
+//@ func (v *Vue) evalSlot(ctx, node, slotScope) (res, err)
+//@   holds ctx.stack
+//@   ensures C06.balance: BALANCED(ctx)
+//@   loop 2 invariant C06.balance.loop: len(ctx.stack.stack) == old(len(ctx.stack.stack)) + 1
